@@ -122,6 +122,7 @@ func Run(c *fw.Ctx) {
 		for role := roleNone; role <= roleAdmin; role++ {
 			add(caseSpec{Role: role, Sel: "own", State: "session", Content: c.Seed, Mode: "txflow", Only: only})
 		}
+		add(caseSpec{Role: roleAdmin, Sel: "own", State: "session", Content: c.Seed, Mode: "openstream", Only: only})
 		if c.Thorough() {
 			for role := roleR; role <= roleAdmin; role++ {
 				for i := 0; i < 3; i++ {
@@ -254,6 +255,10 @@ func runCase(c *fw.Ctx, data []byte) {
 	}
 	if cs.Mode == "txflow" {
 		r.txflows(data)
+		return
+	}
+	if cs.Mode == "openstream" {
+		r.openStreams(data)
 		return
 	}
 
